@@ -116,6 +116,20 @@ func (c01) Runs(tier string) int {
 }
 
 func (c01) Gen(r *kern.Rng, tier string, idx int) *Trace {
+	if idx%200 == 3 {
+		// length sweep: the same setting and data for several hundred consecutive
+		// input lengths, so that the end of the data meets every phase of the
+		// encoder's output-buffer roll-over
+		sc := &scen.WScen{Pkg: "flate", Guard: true, Ctor: r.PickS("new", "new", "4k")}
+		sc.Level = r.Pick(-2, -2, -2, 1, 2, -1)
+		sc.Data = scen.DataSpec{Kind: r.PickS("rand", "rand", "text", "alpha", "fib"), Seed: r.Uint64(), P1: r.Pick(3, 16, 24, 200)}
+		sc.Data.Len = r.Pick(7900, 8100, 16200, 24400, 30000, 65500, 73000) + r.Intn(300)
+		sc.Ops = []scen.WOp{{K: "w", N: 1 << 30}, {K: "c"}}
+		if r.Pct(30) {
+			sc.Ops = []scen.WOp{{K: "w", N: 1000 + r.Intn(3000)}, {K: "f"}, {K: "w", N: 1 << 30}, {K: "c"}}
+		}
+		return &Trace{Property: "C01", Family: "W-plain(length sweep)", W: sc, Sweep: true, Stride: tierLen(tier, 400, 1200)}
+	}
 	maxLen := tierLen(tier, 300000, 2<<20)
 	if r.Pct(70) {
 		maxLen = 140000
@@ -126,6 +140,35 @@ func (c01) Gen(r *kern.Rng, tier string, idx int) *Trace {
 }
 
 func (c01) Exec(tr *Trace, keep bool) *Outcome {
+	if tr.Sweep {
+		o := &Outcome{LevelIndep: true}
+		o.stat("length_sweeps", 1)
+		h := uint64(0)
+		for d := 0; d < tr.Stride; d++ {
+			c := tr.Clone()
+			c.Sweep, c.Stride = false, 0
+			c.W.Data.Len = tr.W.Data.Len + d
+			so := c01{}.Exec(c, keep)
+			o.Evals += so.Evals
+			o.Events += so.Events
+			o.LogHash = o.LogHash*0x100000001b3 ^ so.LogHash
+			o.Sigs = append(o.Sigs, so.Sigs...)
+			h = h*0x100000001b3 ^ so.Digest
+			for k, v := range so.Stats {
+				o.stat(k, v)
+			}
+			o.Violations = append(o.Violations, so.Violations...)
+			if len(o.Violations) > 3 {
+				break
+			}
+		}
+		if len(o.Sigs) > 16 {
+			o.Sigs = o.Sigs[:16]
+		}
+		o.Digest = h
+		o.Sample = fmt.Sprintf("length sweep: flate %s level %d data %s, lengths %d..%d", tr.W.Ctor, tr.W.Level, tr.W.Data.Kind, tr.W.Data.Len, tr.W.Data.Len+tr.Stride-1)
+		return o
+	}
 	o := &Outcome{LevelIndep: true}
 	sc := tr.W
 	rec, log := runW(sc, true, keep)
